@@ -31,6 +31,10 @@ class C01(InterpProp):
         if rnd.random() < 0.2:
             # the event whose name is the empty string is an event like any other
             kn.empty_event = 0.15
+        if rnd.random() < 0.3:
+            # the clock moves between a step and the queueing of a (delayed) event: it is due `delay` after the
+            # time of the last step, and offered to the transitions from then on
+            kn.clock_moves = 0.4
         c = rnd.random()
         if c < 0.25:
             # priorities with several digits and several negative ones (their order is numeric)
